@@ -231,6 +231,8 @@ def build(S: Sources) -> Unit:
         S(f)
     errs = []
     vfiles = guarded(lambda: cmp_file(S), errs, [])
+    from units import cli_common
+    vfiles = vfiles + guarded(lambda: cli_common.cfg_files(S, {"C16"}, "c16"), errs, [])
     hs = [
         KaniHarness("verif_c16::int_arg_names_by_value", "bounded", bound="integer names of 1-2 digits with optional minus sign (every pair of different value)",
                     covers="SortingAttr::cmp_bench_arg_names (integer arguments, name and kind attributes)"),
@@ -249,6 +251,6 @@ def build(S: Sources) -> Unit:
         undecided_clauses=[
             "float and mixed integer/float argument names (str::parse::<f64> is far outside what CBMC decides in reasonable time)",
             "longer names, non-ASCII names, transitivity in general",
-            "the leaf comparisons below EntryTree::cmp_by_attr (EntryTree::kind, cmp_display_name, location, entry_addr: ASSUMED to return the node's kind / name order / (file,line,column) / address), generic constants' own ordering, --sortr as exact reverse, and that sorting only permutes (std sort)",
+            "the leaf comparisons below EntryTree::cmp_by_attr (EntryTree::kind, cmp_display_name, location, entry_addr: ASSUMED to return the node's kind / name order / (file,line,column) / address), generic constants' own ordering, --sortr as exact reverse of the comparison (the flag handling IS covered: --sortr sets reverse_sort and the attribute; its use in the sort call is not), and that sorting only permutes (std sort)",
         ],
     )
